@@ -4,6 +4,7 @@
 package snaps
 
 import (
+	"math/big"
 	"github.com/gkampitakis/go-snaps/match"
 	"encoding/json"
 	"fmt"
@@ -115,6 +116,27 @@ func storeJSON(api string, opt *JSONCfg, test string, doc, form string) (string,
 	return string(es[0].Body), nil
 }
 
+type c14Money struct {
+	Cents    int64
+	Currency string
+}
+
+// pointer receiver: json.Marshal(c14Money{..}) (a non-addressable value) does NOT call it
+func (m *c14Money) MarshalJSON() ([]byte, error) {
+	return []byte(fmt.Sprintf(`"%d.%02d %s"`, m.Cents/100, m.Cents%100, m.Currency)), nil
+}
+
+type c14Invoice struct {
+	No    string
+	Total c14Money
+}
+
+type c14Ledger struct {
+	ID     int
+	Amount big.Int
+	Rate   big.Float
+}
+
 type namedString string
 type namedBytes []byte
 
@@ -149,7 +171,12 @@ func checkC14(c c14Case) error {
 		map[string]any{"raw": json.RawMessage(`{"z":1,"a":{"y":2,"b":3}}`), "b": 1},
 		map[string]any{"list": []any{unsortedFields{Zeta: 2, Alpha: "b", Mid: map[string]any{"k": unsortedFields{Zeta: 3}}}}},
 		[]any{unsortedFields{Zeta: 4, Alpha: "c"}, map[string]string{"z": "1", "a": "2"}},
-		unsortedFields{Zeta: 5, Alpha: "d"}} {
+		unsortedFields{Zeta: 5, Alpha: "d"},
+		// values (NOT pointers) of types whose marshalers have pointer receivers: the standard encoding of a non-addressable
+		// value ignores those methods
+		c14Ledger{ID: 7, Amount: *big.NewInt(1250), Rate: *big.NewFloat(1.5)}, c14Money{Cents: 1999, Currency: "EUR"},
+		c14Invoice{No: "A-1", Total: c14Money{Cents: 5, Currency: "USD"}}, []any{c14Money{Cents: 1, Currency: "CHF"}},
+		&c14Money{Cents: 42, Currency: "GBP"}, map[string]any{"m": c14Money{Cents: 3, Currency: "SEK"}}} {
 		vi++
 		if (len(compact)+vi)%4 != 0 {
 			continue // every case takes a quarter of the typed values (by the length of its document)
